@@ -150,12 +150,23 @@ static char *verif_strrchr(const char *s, int c)
 	__CPROVER_assume(verif_wit_idx <= k || verif_wit_idx > n || s[verif_wit_idx] != (char)c);
 	return (char *)s + k;
 }
+#ifndef VERIF_EXACT_ATOI
 static int verif_atoi(const char *s)
 {
 	int v = (int)nondet_u64();
 	__CPROVER_assert(__CPROVER_r_ok(s, 1), "atoi argument readable");
 	return v;
 }
+#else
+/* exact value of a short digit run (units whose format strings are concrete: the loop folds away) */
+static int verif_atoi(const char *s)
+{
+	unsigned v = 0;
+	size_t k = 0;
+	while (s[k] >= '0' && s[k] <= '9') { v = v * 10u + (unsigned)(s[k] - '0'); k++; }
+	return (int)v;
+}
+#endif
 #else  /* VERIF_STR_LOOPS: exact byte loops */
 static size_t verif_strlen(const char *s)
 {
